@@ -343,8 +343,8 @@ var plans = map[string]Plan{
 	},
 	"C19": {
 		Level: "exploration",
-		Rule: "cases are (program with services, option set {recurse, no-recurse} x {zap, no-zap}): services whose parameters / returns / exceptions range over required and optional primitives, enums, binary, nested containers, unhashable keys, slice-annotated sets, typedefs of each, structs, cross-file references, services extending services across files, go.name on parameters and exceptions. An in-process ServiceGenerator captures every GenerateServiceRequest and returns, into the generated packages, probe files rendered with plugin.GoFileFromTemplate / formatType; the lab is then built. The helpers of every function are exercised at run time by the reflection driver (success value, each declared exception, undeclared exception types and plain errors). " +
-			"Oracle: request self-consistency against the model (ids resolve, parent chains acyclic and as declared, root services == services of the generated files, Go names, import paths, directories, function / argument / exception lists); the probe assignments '*<formatted type> = &args.Field' and 'func(<formatted type>, error) ... = Helper.WrapResponse' type-check only for identical types, so the build decides identity; WrapResponse / UnwrapResponse map values and declared exceptions to the result struct and back without loss and refuse undeclared errors; IsException agrees. " +
+		Rule: "cases are (program with services, option set {recurse, no-recurse} x {zap, no-zap}): services whose parameters / returns / exceptions range over required and optional primitives, enums, binary, nested containers, unhashable keys, slice-annotated sets, typedefs of each, structs, cross-file references, services extending services across files, go.name on parameters and exceptions; programs of 1-5 files, one in two of those with >= 3 files having three or four files of ONE base name in different directories (a/types, b/types, c/types; including each other, services extending services of same-named files). An in-process ServiceGenerator captures every GenerateServiceRequest and returns probe files rendered with plugin.GoFileFromTemplate / formatType / import: one per module inside the generated package (root services), and one per request in a package of its own that covers EVERY service of the request (roots and ancestors) and therefore imports all their packages in a single rendering; the lab is then built. The helpers of every function are exercised at run time by the reflection driver (success value, each declared exception, undeclared exception types and plain errors). " +
+			"Oracle: request self-consistency against the model (ids resolve, parent chains acyclic and as declared, root services == services of the generated files, Go names, import paths, directories, function / argument / exception lists); the probe assignments '*<formatted type> = &args.Field' and 'func(<formatted type>, error) ... = Helper.WrapResponse' type-check only for identical types, so the build decides identity (an import name given to two packages, or one Go refuses, fails the build too: keys probe/import-name/*); WrapResponse / UnwrapResponse map values and declared exceptions to the result struct and back without loss and refuse undeclared errors; IsException agrees. " +
 			"Non-trivial: program with >=2 functions (request/probes); any exception / undeclared-error case or a non-scalar return (helpers). Distinct: SHA-256 of (program, options) resp. of the helper case.",
 		Assumptions: []string{
 			"pointer / func assignability in Go holds only for identical types, so a successful build of the probe proves type identity",
